@@ -538,6 +538,39 @@ func gen(tier string, rng *h.Rng, emit func(string)) {
 		emit("check " + strings.Join(items, "|"))
 	}
 
+	// PairingCheck on slices of DIFFERENT lengths (review F #8): shorter b panics, longer b is cut
+	{
+		l1 := func(ps ...refPt) string {
+			if len(ps) == 0 {
+				return "-"
+			}
+			var out []string
+			for _, P := range ps {
+				out = append(out, hexG1(repG1(rng, P, rng.Bool())))
+			}
+			return strings.Join(out, "|")
+		}
+		l2 := func(qs ...refPt) string {
+			if len(qs) == 0 {
+				return "-"
+			}
+			var out []string
+			for _, Q := range qs {
+				out = append(out, hexG2(repG2(rng, Q, rng.Bool())))
+			}
+			return strings.Join(out, "|")
+		}
+		P := refMul(G, new(big.Int).Add(rng.Big(refOrder), big.NewInt(1)))
+		Q := refMul(refG2, new(big.Int).Add(rng.Big(refOrder), big.NewInt(1)))
+		emit("checkl " + l1(G, G) + " " + l2(refG2))             // panic
+		emit("checkl " + l1(G) + " " + l2(refG2, refNeg(refG2))) // surplus ignored: false
+		emit("checkl " + l1(P, refNeg(P)) + " " + l2(Q, Q, Q))   // surplus ignored: true
+		emit("checkl " + l1(P) + " " + l2())                     // panic
+		emit("checkl " + l1() + " " + l2(Q))                     // empty product: true
+		emit("checkl " + l1(refPt{inf: true}, P) + " " + l2(Q))  // panic although a[0] is skipped
+		emit("checkl " + l1(P, refNeg(P)) + " " + l2(Q, Q))      // equal lengths
+		emit("checkl " + l1(P, refNeg(P), P) + " " + l2(Q, Q))   // panic after a product of one
+	}
 	// an identity (in G1, in G2, in both) at EVERY position of a multi-pairing whose partial products are != 1:
 	// the expected value is the product of the individual reference pairings of the other pairs
 	for rep := 0; rep < scale; rep++ {
